@@ -156,6 +156,9 @@ def run_unit(unit, progress):
         na = i % 3 == 2
         prog = gen.generate(cs, PROFILE_N if na else PROFILE_A)
         faulty = False
+        if i % 12 == 1:
+            prog = gen.revisit_program(random.Random(cs ^ 0x7E715))
+            inc("revisit_programs")
         if i % 12 == 10:
             prog = lease_program(random.Random(cs ^ 0x1EA5E))
             faulty = True
